@@ -196,46 +196,10 @@ fn probe_gen(r: &mut Rng, kind: usize, nc: usize) -> Case {
 
 const BIN_EXTS: [&str; 5] = ["xb", "bin", "adf", "idf", "tnd"];
 
-/// the line `digest` of lean/IcyVerif/Drv/BinFormats.lean prints for a loaded buffer (same as harness/src/c05.rs)
+/// the line `digest` of lean/IcyVerif/Drv/BinFormats.lean prints for a loaded buffer: the C05 harness' own (since the merge of
+/// the C05 work package it also carries the font names and the SAUCE data the buffer keeps)
 fn digest(b: &Buffer) -> String {
-    let (w, h) = (b.get_width(), b.get_height());
-    let area = w as i64 * h as i64;
-    let big = w < 0 || h < 0 || area > 60_000;
-    let mut hc = 14695981039346656037u64;
-    if !big {
-        for y in 0..h {
-            for x in 0..w {
-                let c = b.get_char((x, y));
-                for v in [c.ch as u64, c.attribute.get_foreground() as u64, c.attribute.get_background() as u64, c.attribute.attr as u64, c.get_font_page() as u64] {
-                    hc = fnv_step(hc, v);
-                }
-            }
-        }
-    }
-    let pal: Vec<(u8, u8, u8)> = (0..b.palette.len() as u32).map(|i| b.palette.get_rgb(i)).collect();
-    let palh = fnv(pal.iter().flat_map(|(r, g, b)| [*r as u64, *g as u64, *b as u64]));
-    let mut fonts = BTreeMap::new();
-    for (slot, f) in b.font_iter() {
-        fonts.insert(*slot, (f.size.height, f.convert_to_u8_data()));
-    }
-    let fs: Vec<String> = fonts.iter().map(|(s, (h, d))| format!("{}.{}.{}", s, h, fnv(d.iter().map(|b| *b as u64)))).collect();
-    format!(
-        "ok {} {} {} {} {} {} {} {} {} {}",
-        w,
-        h,
-        b.layers[0].get_width(),
-        b.layers[0].get_height(),
-        b.get_line_count(),
-        match b.ice_mode {
-            icy_engine::IceMode::Unlimited => 0,
-            icy_engine::IceMode::Blink => 1,
-            icy_engine::IceMode::Ice => 2,
-        },
-        if big { "big".to_string() } else { hc.to_string() },
-        pal.len(),
-        palh,
-        if fs.is_empty() { "-".to_string() } else { fs.join(",") }
-    )
+    crate::c05::digest(&crate::c05::observe(b))
 }
 
 /// `Buffer::from_bytes` of a binary-format file vs the composed model
